@@ -45,6 +45,9 @@ class VStructuralTranslatorL2(
 
     for id_, _dtype in dtype.get_all_properties().items():
 
+      # The field becomes a member of a packed struct declaration
+      s.check_decl( id_, f"Note: field {id_} of struct {dtype_name}" )
+
       if isinstance( _dtype, rdt.Vector ):
         tr = s.rtlir_tr_vector_dtype(_dtype)
       elif isinstance( _dtype, rdt.PackedArray ):
